@@ -17,18 +17,19 @@ Perms(S, k) == IF k = 0 THEN { <<>> } ELSE UNION { { <<x>> \o t : t \in Perms(S 
 KL_c09_3 == UNION { Perms(Pool, k) : k \in 1..3 }
 KL_c09_4 == UNION { Perms(Pool, k) : k \in 1..4 }
 
-FaultOps == {"none", "dupEchBefore", "dupEchInnerBefore", "dupEchAfter", "eoeInOuter", "innerTypeInOuter", "badEchType", "emptyEnc", "sniNotPublic", "noOuterSni", "noInnerEch", "outerTypeInInner",
+FaultOps == {"none", "svOdd", "sniNameType", "sniTwoNames", "innerSvOdd", "innerSniNameType", "innerTypeNo13", "dupEchBefore", "dupEchInnerBefore", "dupEchAfter", "eoeInOuter", "innerTypeInOuter", "badEchType", "emptyEnc", "sniNotPublic", "noOuterSni", "noInnerEch", "outerTypeInInner",
              "innerNo13", "innerNoSv", "nonZeroPad", "eoeOdd", "eoeBadLen", "eoeOutOfOrder", "eoeRepeated", "eoeMissing", "eoeRefsEch",
              "eoeRefsEoe", "eoeTwice", "eoeRefsSni"}
 TamperOps == {"none", "dupEchBefore", "dupEchInnerBefore", "dupEchAfter"} \cup Tampers
 PassOpsC == {"none", "noEch", "grease", "no13", "noSv"}
 NoneOp == {"none"}
+NoneUnlisted == {"none", "unlistedSuite"}
 StructOps == {"structOuter", "structInner"}
 OneKey == {"K1"}
 C09Clients == {"K1", "K3", "K5"}
 Pad2 == {"none", "zeros"}
 Pad1 == {"zeros"}
-Sid2 == {"", "s1"}
+Sid2 == {"", "s1", "s8"}      \* empty, 32 bytes, 8 bytes (a pre-TLS 1.3 session id)
 Sid1 == {"s1"}
 
 Emit == Done => PrintT(<<"CASE", ToJson([onm |-> onm, inm |-> inm, run |-> run, pad |-> pad, sid |-> sid, ck |-> ck, suite |-> suite, op |-> op,
